@@ -407,7 +407,7 @@ static void case_history_2d(Rng& rng, uint64_t index)
 
 static void setup()
 {
-	add_generator("histories_1d", ctx().count(320, 120000), case_history);
-	add_generator("histories_2d", ctx().count(160, 40000), case_history_2d);
+	add_generator("histories_1d", ctx().count(2240, 120000), case_history);
+	add_generator("histories_2d", ctx().count(1120, 40000), case_history_2d);
 }
 VERIF_MAIN("C09", setup)
